@@ -8,6 +8,7 @@ import ThaiLintModel.C01.Drv
 import ThaiLintModel.C06.Drv
 import ThaiLintModel.C07.Drv
 import ThaiLintModel.C08.Drv
+import ThaiLintModel.C09.Drv
 import ThaiLintModel.C10.Drv
 import ThaiLintModel.C14.Drv
 import ThaiLintModel.C15.Drv
@@ -19,6 +20,7 @@ def dispatch (j : Json) : Json :=
   | "C06" => ThaiLintModel.C06.handle j
   | "C07" => ThaiLintModel.C07.handle j
   | "C08" => ThaiLintModel.C08.handle j
+  | "C09" => ThaiLintModel.C09.handle j
   | "C10" => ThaiLintModel.C10.handle j
   | "C14" => ThaiLintModel.C14.handle j
   | "C15" => ThaiLintModel.C15.handle j
